@@ -21,6 +21,7 @@ package directinvoke_test
 //   * the call returns (10 s without return = hang).
 
 import (
+	"math"
 	"bytes"
 	"context"
 	"errors"
@@ -440,6 +441,8 @@ func c17CopyCheck(c c17CopyCase) kit.Outcome {
 		out.Label("L:1")
 	case c.L == interop.MaxPayloadSize:
 		out.Label("L:default")
+	case c.L > 1<<30:
+		out.Label("L:huge")
 	default:
 		out.Label("L:small")
 	}
@@ -505,7 +508,7 @@ func c17CopyGen(t *rapid.T) c17CopyCase {
 	c := c17CopyCase{Rate: interop.ResponseBandwidthRate, Burst: interop.ResponseBandwidthBurstSize}
 	c.Mode = rapid.SampledFrom([]string{"streaming", "streaming", "streaming", "buffered", "buffered"}).Draw(t, "mode")
 	streaming := c.Mode == "streaming"
-	lk := rapid.SampledFrom([]string{"0", "1", "small", "small", "small", "mid", "mid", "unlimited", "unlimited", "default"}).Draw(t, "Lkind")
+	lk := rapid.SampledFrom([]string{"0", "1", "small", "small", "small", "mid", "mid", "unlimited", "unlimited", "default", "huge"}).Draw(t, "Lkind")
 	if lk == "unlimited" && !streaming {
 		lk = "small"
 	}
@@ -523,6 +526,9 @@ func c17CopyGen(t *rapid.T) c17CopyCase {
 		c.L = rapid.OneOf(rapid.Int64Range(301, 70000), rapid.SampledFrom([]int64{32767, 32768, 32769, 65536})).Draw(t, "L")
 	case "unlimited":
 		c.L = -1
+	case "huge":
+		// the largest values the header validation lets through
+		c.L = rapid.SampledFrom([]int64{math.MaxInt64, math.MaxInt64 - 1, 1 << 40, math.MaxInt32, math.MaxInt32 + 1}).Draw(t, "hugeL")
 	default:
 		c.L = interop.MaxPayloadSize
 	}
@@ -532,6 +538,8 @@ func c17CopyGen(t *rapid.T) c17CopyCase {
 		if rapid.IntRange(0, 60).Draw(t, "huge") == 0 {
 			n = interop.MaxPayloadSize + rapid.IntRange(1, 5000).Draw(t, "hugeBy")
 		}
+	} else if c.L > 1<<30 {
+		n = rapid.OneOf(rapid.IntRange(0, 300), rapid.IntRange(0, 100000), rapid.SampledFrom([]int{0, 1, 32768, 65536})).Draw(t, "len")
 	} else {
 		L := int(c.L)
 		switch rapid.SampledFrom([]string{"L-1", "L", "L", "L+1", "L+1", "L+2", "0", "random", "random"}).Draw(t, "lenKind") {
